@@ -9,8 +9,8 @@ from harness.runner import first_per_clause, pmap, CACHE
 def multi_start_graph():
     """Three start nodes (the start set is a set: its iteration order depends on the interpreter's hash seed)."""
     from harness.gd import empty
-    g = empty(10)
-    g['start'] = [1, 2, 3]
+    g = empty(11)
+    g['start'] = [1, 2, 3, 11]          # 11: a start node without any edge (exports must still contain it)
     g['der'] = [[1, 4], [2, 5], [3, 6], [4, 7], [8, 10]]
     g['ch'] = [{'origin': 5, 'opts': [8, 9]}]
     g['feat'] = ['multi_start']
